@@ -208,6 +208,7 @@ func generate() {
 	}
 	genGroup1()
 	genGroup2()
+	genMoveCmd()
 	genGroup3()
 	genAlias()
 	genMalformed()
